@@ -179,3 +179,17 @@ Qed.
 
 Lemma land_7_range i : 0 <= Z.land i 7 < 8.
 Proof. change 7 with (Z.ones 3). change 8 with (2 ^ 3). apply land_ones_range. lia. Qed.
+
+Lemma tz64_range z : 0 <= z < 2 ^ 64 -> 0 <= tz64 z <= 64.
+Proof.
+  intros H. unfold tz64. destruct (Z.eq_dec z 0) as [->|Hne]; [cbn; lia|].
+  pose proof (tz_lt 64 z 64 ltac:(lia) ltac:(lia)) as Hlt. destruct (tz_spec 64 z) as [Hnn _]; lia.
+Qed.
+
+Lemma shr64_range x n : 0 <= x < 2 ^ 64 -> 0 <= n -> 0 <= shr64 x n < 2 ^ 64.
+Proof.
+  intros Hx Hn. unfold shr64. destruct (Z.ltb_spec n 64); [|lia].
+  assert (0 < 2 ^ n) by (apply Z.pow_pos_nonneg; lia).
+  split; [apply Z.div_pos; lia|].
+  apply Z.div_lt_upper_bound; [lia|]. nia.
+Qed.
